@@ -30,7 +30,9 @@ for (prop, k), e in sorted(rows.items()):
     src = (f"/tmp/seed/{prop}/_seed/{k}" if int(k) <= 3 else
            f"/tmp/seed2/{prop}/_seed/{int(k) - 3}" if int(k) <= 6 else
            f"/tmp/seed4/{prop}/_seed/{int(k) - 6}" if int(k) <= 9 else
-           f"/tmp/seed5/{prop}/_seed/{int(k) - 9}" if int(k) <= 12 else f"/tmp/seed7/{prop}/_seed/{int(k) - 12}")
+           f"/tmp/seed5/{prop}/_seed/{int(k) - 9}" if int(k) <= 12 else
+           f"/tmp/seed7/{prop}/_seed/{int(k) - 12}" if os.path.exists(f"/tmp/seed7/{prop}/_seed/{int(k) - 12}/patch.diff") else
+           f"/tmp/seed8/{prop}/_seed/{int(k) - 12}")
     if not os.path.exists(f"{src}/patch.diff"):
         continue
     dst = f"/verif/seeded/{prop}-{k}"
